@@ -8,6 +8,7 @@ import KmipModel.Basic
 namespace Kmip.Shutdown
 
 inductive ServePc where
+  | notStarted                   -- Serve has not been called yet (Shutdown may run first)
   | accepting                    -- blocked in / about to call Accept
   | gotConn (c : Nat)            -- Accept returned a connection; not registered yet
   | returned (err : Bool)        -- Serve returned (err = false: nil)
@@ -27,6 +28,7 @@ inductive SdPc where
 structure State where
   done : Bool
   listenerOpen : Bool
+  lSet : Bool                      -- `s.l != nil`: Serve has stored its listener and Shutdown has not yet taken it
   wg : Nat
   serve : ServePc
   sd : SdPc
@@ -42,10 +44,11 @@ structure State where
 def State.started (σ : State) : Nat := σ.running + σ.connClosed + σ.ended
 
 def init : State :=
-  { done := false, listenerOpen := true, wg := 0, serve := .accepting, sd := .idle, running := 0, connClosed := 0, ended := 0,
+  { done := false, listenerOpen := true, lSet := false, wg := 0, serve := .notStarted, sd := .idle, running := 0, connClosed := 0, ended := 0,
     lateClosed := 0, ctxExpired := false, waiterSawZero := false, nextConn := 1 }
 
 inductive Label where
+  | serveStart
   | accept | acceptFail | register | closeLate
   | sdSignal | sdCloseListener | sdStartWait | waiterDone | sdReturnNil | sdReturnCtx
   | sessCloseConn | sessDone
@@ -58,6 +61,8 @@ def Label.isShutdown : Label → Bool
 
 /-- the transition relation -/
 inductive Step : State → Label → State → Prop where
+  /-- Serve is called: under mu it stores the listener (`s.l = l`) -/
+  | serveStart (σ : State) : σ.serve = .notStarted → Step σ .serveStart { σ with serve := .accepting, lSet := true }
   /-- Accept returns a fresh connection (only while the listener is open) -/
   | accept (σ : State) : σ.serve = .accepting → σ.listenerOpen = true →
       Step σ .accept { σ with serve := .gotConn σ.nextConn, nextConn := σ.nextConn + 1 }
@@ -73,7 +78,7 @@ inductive Step : State → Label → State → Prop where
   | sdSignal (σ : State) : σ.sd = .idle → Step σ .sdSignal { σ with sd := .signalled, done := true }
   /-- under mu -/
   | sdCloseListener (σ : State) : σ.sd = .signalled →
-      Step σ .sdCloseListener { σ with sd := .listenerClosed, listenerOpen := false }
+      Step σ .sdCloseListener { σ with sd := .listenerClosed, listenerOpen := (!σ.lSet && σ.listenerOpen), lSet := false }
   | sdStartWait (σ : State) : σ.sd = .listenerClosed → Step σ .sdStartWait { σ with sd := .waiting }
   /-- the waiter's wg.Wait() returns: the counter is zero -/
   | waiterDone (σ : State) : σ.sd = .waiting → σ.wg = 0 → Step σ .waiterDone { σ with waiterSawZero := true }
@@ -97,6 +102,7 @@ namespace Kmip.Shutdown
 
 /-- executable version of the step relation (for replaying schedules); `applyLabel_sound` ties it to `Step` -/
 def applyLabel (σ : State) : Label → Option State
+  | .serveStart => if σ.serve = .notStarted then some { σ with serve := .accepting, lSet := true } else none
   | .accept => if σ.serve = .accepting ∧ σ.listenerOpen = true then
       some { σ with serve := .gotConn σ.nextConn, nextConn := σ.nextConn + 1 } else none
   | .acceptFail => if σ.serve = .accepting ∧ σ.listenerOpen = false ∧ σ.done = true then
@@ -108,7 +114,8 @@ def applyLabel (σ : State) : Label → Option State
     | .gotConn _ => if σ.done = true then some { σ with serve := .returned false, lateClosed := σ.lateClosed + 1 } else none
     | _ => none
   | .sdSignal => if σ.sd = .idle then some { σ with sd := .signalled, done := true } else none
-  | .sdCloseListener => if σ.sd = .signalled then some { σ with sd := .listenerClosed, listenerOpen := false } else none
+  | .sdCloseListener => if σ.sd = .signalled then
+      some { σ with sd := .listenerClosed, listenerOpen := (!σ.lSet && σ.listenerOpen), lSet := false } else none
   | .sdStartWait => if σ.sd = .listenerClosed then some { σ with sd := .waiting } else none
   | .waiterDone => if σ.sd = .waiting ∧ σ.wg = 0 then some { σ with waiterSawZero := true } else none
   | .sdReturnNil => if σ.sd = .waiting ∧ σ.waiterSawZero = true then some { σ with sd := .returnedNil } else none
@@ -119,6 +126,7 @@ def applyLabel (σ : State) : Label → Option State
 
 theorem applyLabel_sound (σ σ' : State) (l : Label) (h : applyLabel σ l = some σ') : Step σ l σ' := by
   cases l <;> simp only [applyLabel] at h
+  · split at h <;> simp at h; subst h; rename_i hc; exact Step.serveStart σ hc
   · split at h <;> simp at h; subst h; rename_i hc; exact Step.accept σ hc.1 hc.2
   · split at h <;> simp at h; subst h; rename_i hc; exact Step.acceptFail σ hc.1 hc.2.1 hc.2.2
   · split at h
@@ -146,6 +154,8 @@ def runLabels (σ : State) : List Label → Option State
 
 /-- harness-level actions and the LTS steps each one stands for -/
 inductive Action where
+  | startServe      -- Serve is called
+  | arriveLate      -- a connection arrives after the shutdown signal: accepted, refused, closed
   | arrive          -- a connection arrives, is accepted and registered (its session starts)
   | inflight        -- a request is sent whose handler blocks (no LTS step)
   | release         -- the blocked handler returns (no LTS step)
@@ -156,6 +166,8 @@ inductive Action where
   deriving DecidableEq, Repr
 
 def Action.labels : Action → List Label
+  | .startServe => [.serveStart]
+  | .arriveLate => [.accept, .closeLate]
   | .arrive => [.accept, .register]
   | .inflight => []
   | .release => []
